@@ -97,6 +97,10 @@ def all_units():
         out = []
         for u in us:
             o = ov.get(u['id'])
+            if os.environ.get('VERIF_PENDING_ONLY'):
+                # development: run exactly the units still marked pending (second measurement pass)
+                if o and o.get('pending'): u['tier'] = 'thorough'; out.append(u)
+                continue
             if o:
                 if o.get('tier') == 'off': continue
                 u['tier'] = o.get('tier', u['tier'])
